@@ -213,7 +213,7 @@ func init() {
 	register(&engine.Check{
 		ID:          "C08",
 		Level:       "model_checking",
-		Rule:        "every profile extension list of length <=2 (quick) / <=3 (thorough) over 24 entries (OID {A,B} x content {1,2,none} x optional x override) x every certificate extension list of length <=3 / <=4 over 6 entries: real config.Merge on a harness ExtensionConfig type vs. the 15-line reference merge transcribed from the statement, plus input-unchanged comparison; and the file pipeline with real extension kinds (profile lists <=2 x certificate lists <=2 over 4 kinds): certificate extension list vs. reference, content-less survivor => error and no file. Pairs distinct by construction; states = profile lists, transitions = Merge calls / runs",
+		Rule:        "every profile extension list of length <=2 (quick) / <=3 (thorough) over 24 entries (OID {A,B} x content {1,2,none} x optional x override) x every certificate extension list of length <=3 / <=4 over 6 entries: real config.Merge on a harness ExtensionConfig type vs. the 15-line reference merge transcribed from the statement, plus input-unchanged comparison; and the file pipeline with real extension kinds (profile lists <=2 x certificate lists <=2 over 4 kinds): certificate extension list vs. reference, content-less survivor => error and no file; then the same profile shared by three certificates in one run (inheriting everything / the list / the list reversed), each compared with the reference merge of its own list. Pairs distinct by construction; states = profile lists, transitions = Merge calls / runs",
 		Bound:       map[string]string{"profile list": "quick<=2 thorough<=3", "certificate list": "quick<=3 thorough<=4", "OIDs": "2", "contents": "2 + none"},
 		Assumptions: []string{"'differs' is configuration-entry difference (the statement's wording), modelled by the JSON form of the harness type"},
 		Budget:      budgets(quickBudget, thoroughBudget),
